@@ -55,6 +55,33 @@ for n in (1, 2, 4):
                         defs=["N=%d" % n, "ALIAS=%d" % al], level="B", bound="operand length <= 4 words",
                         unwind=n + 3, spec_unwind=n + 3, search=30000, split=True, fn=ZZMFN))
 
+ZZR = ["src/math/zz/zz_red.c", "src/math/zz/zz_mul.c", "src/math/zz/zz_mod.c", "src/math/zz/zz_add.c", "src/math/zz/zz_etc.c",
+       "src/math/ww.c", "src/core/mem.c", "src/core/word.c", "src/core/u64.c", "src/core/u32.c", "src/core/u16.c"]
+def red_group(name, entry, n, part, fn, **kw):
+    return G(name, "harness/C05/zz_red.c", entry, ZZR, defs=["N=%d" % n, "PART=%d" % part], level="B", backend="portfolio",
+             bound="modulus length %d word(s): all moduli, operands and parameters of that length" % n,
+             unwind=n + 3, spec_unwind=2 * n + 4, search=300000, fn=fn, checks=[], extra=["--no-standard-checks"], ndebug=True, split=True, **kw)
+MONT = ["zzRedMont", "zzRedMont_fast"]
+CRAND = ["zzRedCrand", "zzRedCrand_fast", "zzRedCrandMont", "zzRedCrandMont_fast"]
+GROUPS.append(red_group("zz_red.mont.n1.rel", "h_red_mont", 1, 1, MONT, timeout=300,
+                        note="SAFE edition == FAST edition on equal inputs (nonlinear, structure-aligned: SMT portfolio)"))
+GROUPS.append(red_group("zz_red.crand.n2.rel", "h_red_crand", 2, 1, CRAND, timeout=1500, tier="thorough", required=False,
+                        note="attempted: measured no answer in 400 s on cvc5 and z3 (Crandall forms need n >= 2)"))
+for part, what in ((1, "SAFE == FAST"), (2, "result < mod and, for zzRedCrand, == a mod m")):
+    for ent, n, fn in (("h_red_mont", 1, MONT), ("h_red_mont", 2, MONT), ("h_red_mont", 4, MONT),
+                       ("h_red_crand", 2, CRAND), ("h_red_crand", 4, CRAND)):
+        GROUPS.append(G("zz_red.%s.n%d.part%d.search" % (ent[6:], n, part), "harness/C05/zz_red.c", ent, ZZR,
+                        defs=["N=%d" % n, "PART=%d" % part], level="N", backend="native", search=400000, fn=fn,
+                        note="native differential search (ASan/UBSan build of the real sources, seeded, steered to multiples "
+                             "of the modulus): stand-in where no back end answers; NOT proof: " + what))
+GROUPS.append(red_group("zz_red.mont.n2.rel", "h_red_mont", 2, 1, MONT, timeout=1500, tier="thorough", required=False,
+                        note="attempted"))
+GROUPS.append(red_group("zz_red.mont.n1.reduced", "h_red_mont", 1, 2, MONT, timeout=200, tier="thorough", required=False,
+                        note="attempted: 'result < mod' is a free-standing multiplication fact; no installed back end decides it; "
+                             "native search stands in"))
+GROUPS.append(red_group("zz_red.crand.n2.reduced", "h_red_crand", 2, 2, CRAND, timeout=200, tier="thorough", required=False,
+                        note="attempted, as above"))
+
 # ---- unbounded contract groups (dfcc + loop contracts), symbolic n ---------------------
 def L(assigns, inv, dec="n - i"):
     return dict(assigns=assigns, inv=inv, dec=dec)
